@@ -1284,6 +1284,14 @@ func (s *Netceptor) translateDataFromMessage(msg *MessageData) ([]byte, error) {
 	return buf.Bytes(), nil
 }
 
+// routingError reports that a message could not be handed to a next hop right now (no route, or the
+// connection to the next hop is gone). Such a condition is transient while routes are re-computed.
+type routingError struct {
+	msg string
+}
+
+func (e *routingError) Error() string { return e.msg }
+
 // Forwards a message to its next hop.
 func (s *Netceptor) forwardMessage(md *MessageData) error {
 	if md.HopsToLive <= 0 {
@@ -1303,13 +1311,13 @@ func (s *Netceptor) forwardMessage(md *MessageData) error {
 	nextHop, ok := s.routingTable[md.ToNode]
 	s.routingTableLock.RUnlock()
 	if !ok {
-		return fmt.Errorf("no route to node")
+		return &routingError{"no route to node"}
 	}
 	s.connLock.RLock()
 	c, ok := s.connections[nextHop]
 	s.connLock.RUnlock()
 	if !ok || c.WriteChan == nil {
-		return fmt.Errorf("no connection to next hop")
+		return &routingError{"no connection to next hop"}
 	}
 	message, err := s.translateDataFromMessage(md)
 	if err != nil {
@@ -1320,7 +1328,7 @@ func (s *Netceptor) forwardMessage(md *MessageData) error {
 	s.Logger.Trace("    Forwarding data length %d via %s\n", len(md.Data), nextHop)
 	select {
 	case <-c.Context.Done():
-		return fmt.Errorf("connInfo cancelled while forwarding message")
+		return &routingError{"connInfo cancelled while forwarding message"}
 	case c.WriteChan <- message:
 	}
 
